@@ -358,31 +358,36 @@ def scanCands (pid : Id) (i n : Nat) : Nat → List Cand → Option (Nat × Nat)
 the longest ones in the order candidates × exprlists). -/
 def matchAt (cands : List Cand) (pid : Id) (i n : Nat) : Option (Nat × Nat) := scanCands pid i n 0 cands none
 
-/-- `Axis(f"cse.{idx}", value, …, min_value=_value_range(what)[0])` -/
-def newAxis (idx : Nat) (value : Option Nat) (range : Option (Nat × Bool)) : Except String VExpr :=
+/-- `f"cse.{idx}"` -/
+def cseName (k : Nat) : String := "cse." ++ toString k
+
+/-- `Axis(name, value, …, min_value=_value_range(what)[0])` -/
+def newAxis (name : String) (value : Option Nat) (range : Option (Nat × Bool)) : Except String VExpr :=
   match range with
-  | some (m, _) => pure (.axis ("cse." ++ toString idx) value m)
+  | some (m, _) => pure (.axis name value m)
   | none => throw "TypeError: 'NoneType' object is not subscriptable"
 
 section Replace
-variable (mn : Id → Option Nat) (ma : Id → Nat → Nat → Option (Nat × Nat))
+/- `nm idx` is the name of the axis that replaces the exprlists of candidate `idx` (`cseName` in `cse`; a parameter so
+that C16 can state "the same trees with the new axes numbered differently"); `mn`, `ma` are the two searches. -/
+variable (nm : Nat → String) (mn : Id → Option Nat) (ma : Id → Nat → Nat → Option (Nat × Nat))
 
 /-- the node-level test at the top of `replace(expr)` for a node -/
 def nodeOr (id : Id) (e : VExpr) (other : Except String (List VExpr)) : Except String (List VExpr) :=
   match mn id with
-  | some idx => do pure [← newAxis idx (valueOf e) (valueRange e)]
+  | some idx => do pure [← newAxis (nm idx) (valueOf e) (valueRange e)]
   | none => other
 
 mutual
 /-- `replace(expr)` for a node -/
 def repl (id : Id) : VExpr → Except String (List VExpr)
-  | .axis n v m => nodeOr mn id (.axis n v m) (pure [.axis n v m])
+  | .axis n v m => nodeOr nm mn id (.axis n v m) (pure [.axis n v m])
   | .list cs =>
     -- `replace(expr.children)`; a Python list of length one is `replace(expr[0])`
-    nodeOr mn id (.list cs) (if cs.length == 1 then replC id 0 cs else replL id cs.length 0 0 cs)
-  | .concat cs => nodeOr mn id (.concat cs) (do pure [← mkConcat (← replC id 0 cs)])
-  | .brackets e => nodeOr mn id (.brackets e) (do pure [mkBrackets (mkList (← repl (id ++ [0]) e))])
-  | .flat e => nodeOr mn id (.flat e) (do pure [mkFlat (mkList (← repl (id ++ [0]) e))])
+    nodeOr nm mn id (.list cs) (if cs.length == 1 then replC id 0 cs else replL id cs.length 0 0 cs)
+  | .concat cs => nodeOr nm mn id (.concat cs) (do pure [← mkConcat (← replC id 0 cs)])
+  | .brackets e => nodeOr nm mn id (.brackets e) (do pure [mkBrackets (mkList (← repl (id ++ [0]) e))])
+  | .flat e => nodeOr nm mn id (.flat e) (do pure [mkFlat (mkList (← repl (id ++ [0]) e))])
 /-- the `while i < len(expr)` loop for the children (length `n`) of the `List` node `pid`; `skip` elements are still
 covered by the exprlist substituted last (`i += len(exprlist)`) -/
 def replL (pid : Id) (n : Nat) (i skip : Nat) : List VExpr → Except String (List VExpr)
@@ -392,7 +397,7 @@ def replL (pid : Id) (n : Nat) (i skip : Nat) : List VExpr → Except String (Li
     else
       match ma pid i n with
       | some (idx, len) => do
-        let a ← newAxis idx (prodOpt (valuesOf ((t :: ts).take len))) (valueRange (.list ((t :: ts).take len)))
+        let a ← newAxis (nm idx) (prodOpt (valuesOf ((t :: ts).take len))) (valueRange (.list ((t :: ts).take len)))
         let r ← replL pid n (i + 1) (len - 1) ts
         pure (a :: r)
       | none => do
@@ -410,13 +415,18 @@ end
 end Replace
 
 /-- `[List.create(replace(root), ellipsis_indices=[]) if root is not None else None for root in expressions]` -/
-def replaceRoots (cands : List Cand) (k : Nat) : List (Option VExpr) → Except String (List (Option VExpr))
+def replaceRootsM (nm : Nat → String) (mn : Id → Option Nat) (ma : Id → Nat → Nat → Option (Nat × Nat)) (k : Nat) :
+    List (Option VExpr) → Except String (List (Option VExpr))
   | [] => pure []
-  | none :: rs => do pure (none :: (← replaceRoots cands (k + 1) rs))
+  | none :: rs => do pure (none :: (← replaceRootsM nm mn ma (k + 1) rs))
   | some r :: rs => do
-    let a ← repl (matchNode cands) (matchAt cands) [k] r
-    let rest ← replaceRoots cands (k + 1) rs
+    let a ← repl nm mn ma [k] r
+    let rest ← replaceRootsM nm mn ma (k + 1) rs
     pure (some (mkList a) :: rest)
+
+/-- … with the candidates `cands` and the names `cse.<idx>` -/
+def replaceRoots (cands : List Cand) (k : Nat) (rs : List (Option VExpr)) : Except String (List (Option VExpr)) :=
+  replaceRootsM cseName (matchNode cands) (matchAt cands) k rs
 
 /-- `cse(expressions, cse_concat, cse_in_brackets)` with the dict enumerated by `enum`. -/
 def cseTreesEnum (enum : List Cand → List Cand) (opts : Opts) (roots : List (Option VExpr)) :
